@@ -110,6 +110,7 @@ struct TSParser {
   unsigned included_range_difference_index;
   bool has_scanner_error;
   bool canceled_balancing;
+  bool canceled_parsing;
   bool has_error;
   // Where the version loop of `ts_parser_parse` stood when a parse was
   // cancelled, so that a resumed parse schedules the stack versions exactly
@@ -1988,6 +1989,7 @@ static bool ts_parser__balance_subtree(TSParser *self) {
 static bool ts_parser_has_outstanding_parse(TSParser *self) {
   return (
     self->canceled_balancing ||
+    self->canceled_parsing ||
     self->external_scanner_payload ||
     ts_stack_state(self->stack, 0) != 1 ||
     ts_stack_node_count_since_error(self->stack, 0) != 0
@@ -2010,6 +2012,7 @@ TSParser *ts_parser_new(void) {
   self->has_scanner_error = false;
   self->has_error = false;
   self->canceled_balancing = false;
+  self->canceled_parsing = false;
   self->external_scanner_payload = NULL;
   self->operation_count = 0;
   self->old_tree = NULL_SUBTREE;
@@ -2133,6 +2136,7 @@ void ts_parser_reset(TSParser *self) {
   self->has_scanner_error = false;
   self->has_error = false;
   self->canceled_balancing = false;
+  self->canceled_parsing = false;
   self->resume_position = 0;
   self->resume_last_position = 0;
   self->resume_version = 0;
@@ -2219,6 +2223,7 @@ TSTree *ts_parser_parse(
           self->resume_position = position;
           self->resume_last_position = last_position;
           self->resume_version = version;
+          self->canceled_parsing = true;
           return NULL;
         }
 
